@@ -36,7 +36,7 @@ MANIFEST = {
     "technique": "model checking by exhaustive small-scope enumeration of token sequences on the real parsers with a progress monitor on every reader",
 }
 
-COMMON = ["", "   ", "Summary line.", "more prose", "```", "    >>> f(1)  # doctest: +SKIP", "    <BLANKLINE>"]
+COMMON = ["", "   ", "Summary line.", "more prose", "int: summary with a type prefix", "str: see http://a.b/c: details", "```", "    >>> f(1)  # doctest: +SKIP", "    <BLANKLINE>"]
 GOOGLE_HEADERS = ["Args:", "Other Parameters:", "Raises:", "Warns:", "Returns:", "Yields:", "Receives:", "Attributes:", "Functions:", "Classes:", "Modules:",
                   "Examples:", "Note:", "Note: Title", "Deprecated:"]
 GOOGLE_ITEMS = ["    a: desc", "    a (int): desc", "    *args: desc", "    **kw (dict): d", "    : desc", "    (int): desc", "    int: desc", "    nocolon",
@@ -213,7 +213,7 @@ def _check_sections(env, sections):
 
 def _is_prose_only(style, seq):
     toks = TOKENS[style]
-    plain = {"", "   ", "Summary line.", "more prose"}
+    plain = {"", "   ", "Summary line.", "more prose"}  # (lines with colons may legitimately be read as admonitions/fields)
     return all(toks[i] in plain for i in seq)
 
 
